@@ -363,7 +363,19 @@ def _dir_part(ctx, top, H, p, skip, rec_params, depth=0):
             # the listing may be walked by a helper generator that yields the entries of sorted(os.listdir(path))
             sl = C.sorted_listing_generator(ctx, H, it)
             srt = sl is not None and norm(sl[0]) == p
-        return Fact("sorted(os.listdir(path))" if srt else norm(it), it, H)
+        if srt:
+            return Fact("sorted(os.listdir(path))", it, H)
+        lists = [x for x in ast.walk(it) if isinstance(x, ast.Call) and (C.is_ext_call(ctx, x, H, ("os.listdir", "os.scandir", "os.walk", "glob.glob", "glob.iglob"))
+                                                                         or (isinstance(x.func, ast.Attribute) and x.func.attr in ("iterdir", "glob", "rglob")))]
+        if not lists:
+            # a local, a helper's result: where the names come from was not followed, so nothing is stated about their order
+            return und("the directory loop iterates over `%s`, which is not a listing expression: where the names come from was not followed" % norm(it)[:60], it, H)
+        return Fact(norm(it), it, H)
+    work = C.worklist_loops(H)
+    if work and not any(is_rec(x) for x in own_nodes(H.node)):
+        F["dir.loop"] = und("the directories are walked with an explicit stack (`%s`) instead of a call of the traversal on every entry: "
+                            "what such a walk visits, and in which order, is not read" % work[0][1], work[0][0], H)
+        return F, H
     loops = [n for n in own_nodes(H.node) if isinstance(n, ast.For) and id(n) not in skip]
     # the directory loop is the one that descends: other loops of the function (over hashes, over records) are not it
     descending = [l for l in loops if any(is_rec(x) for st in l.body for x in ast.walk(st))]
